@@ -156,6 +156,8 @@ def sweep(ctx, ncases, nmax, precs="d", drivers=("gssv",), flavour="plain", forc
             from . import evmon
             rec["evmon"] = evmon.check(rec["res"].get("events", []), min(cfg["nprocs"], 10 ** 9))
             rec["n_events"] = len(rec["res"].get("events", []))
+            if cfg.get("dyn"):
+                rec["dyntext"] = evmon.dyn_text(rec["res"].get("events", []), "c%d" % cfg["t"])
             rec["res"]["events"] = rec["res"]["events"][:0]   # free memory
         if rec["status"] == "ok" and 0 <= rec["info"] and not rec["res"].get("noLU"):
             try:
